@@ -185,6 +185,22 @@ func (d *verifSDriver) next() *verifSDTx {
 	}
 }
 
+// reserveXIN books a XIN deposit made outside next() against the same 60% budget; false when it does not fit.
+func (d *verifSDriver) reserveXIN(amount common.Integer) bool {
+	xin := d.assets[0]
+	lim := verifgen.UnitsOf(common.GetAssetCapacity(xin.Id))
+	lim.Mul(lim, big.NewInt(6)).Div(lim, big.NewInt(10))
+	if d.deposited[xin.Id] == nil {
+		d.deposited[xin.Id] = new(big.Int)
+	}
+	u := verifgen.UnitsOf(amount)
+	if new(big.Int).Add(d.deposited[xin.Id], u).Cmp(lim) > 0 {
+		return false
+	}
+	d.deposited[xin.Id].Add(d.deposited[xin.Id], u)
+	return true
+}
+
 // depositAsset picks the asset of the next deposit; an asset (other than XIN) whose deposits reach 80% of
 // its capacity is retired and replaced by a fresh one.
 func (d *verifSDriver) depositAsset(units *big.Int) verifgen.AssetInfo {
